@@ -20,6 +20,7 @@ import KiraModel.Proofs.StreamLemmas
 import KiraModel.Proofs.StreamSeekLemmas
 import KiraModel.Proofs.StreamLoopLemmas
 import KiraModel.Proofs.GenAgreeSound
+import KiraModel.Proofs.GenAgreeTransport
 
 namespace K
 open Streaming StaticSound
